@@ -211,6 +211,30 @@ func notificationBytes(code, sub uint8, data []byte) []byte {
 	return append(wHeader(wNotification, len(body)), body...)
 }
 
+// readWireMsgLate is readWireMsg with the decoding options looked up only after the whole
+// message has arrived (the options of a session may be set while the reader is blocked).
+func readWireMsgLate(c *simConn, opts func() wOpts) (*wMsg, error) {
+	h := make([]byte, 19)
+	if _, err := io.ReadFull(c, h); err != nil {
+		return nil, err
+	}
+	typ, l, err := wParseHeader(h)
+	if err != nil {
+		return nil, fmt.Errorf("bad header from gobgp: %w", err)
+	}
+	body := make([]byte, l-19)
+	if _, err := io.ReadFull(c, body); err != nil {
+		return nil, err
+	}
+	o := opts()
+	m, err := wParseBody(typ, body, &o)
+	if err != nil {
+		return nil, fmt.Errorf("undecodable message type %d from gobgp (%d bytes): %w", typ, l, err)
+	}
+	m.Raw = append(h, body...)
+	return m, nil
+}
+
 func readWireMsg(c *simConn, o *wOpts, maxLen int) (*wMsg, error) {
 	h := make([]byte, 19)
 	if _, err := io.ReadFull(c, h); err != nil {
